@@ -164,9 +164,16 @@ def _classes():
             for v in s['outs']:
                 self.add_output(v, val=np.ones(n))
             ar = np.arange(n)
-            for o in s['outs']:
-                for i in s['ins']:
-                    self.declare_partials(o, i, rows=ar, cols=ar)
+            ap = s.get('approx')
+            if ap in ('fd', 'cs'):
+                self.declare_partials('*', '*', method=ap)
+            elif ap == 'fdcolor':
+                self.declare_partials('*', '*', method='fd')
+                self.declare_coloring(wrt='*', method='fd', show_summary=False, show_sparsity=False)
+            else:
+                for o in s['outs']:
+                    for i in s['ins']:
+                        self.declare_partials(o, i, rows=ar, cols=ar)
 
         def compute(self, inputs, outputs):
             s = self.options['spec']
@@ -179,6 +186,8 @@ def _classes():
 
         def compute_partials(self, inputs, partials):
             s = self.options['spec']
+            if s.get('approx'):
+                return
             for j, o in enumerate(s['outs']):
                 for i, v in enumerate(s['ins']):
                     d = np.full(s['n'], float(s['c'][j][i]))
@@ -266,6 +275,8 @@ def build(spec, driver=None):
             g.nonlinear_solver = om.NewtonSolver(solve_subsystems=False, maxiter=s['maxiter'], atol=1e-300,
                                                  rtol=1e-300, iprint=-1)
         g.linear_solver = om.DirectSolver()
+    for path, method in spec.get('approx_groups', {}).items():
+        groups[path].approx_totals(method=method)
     for d in spec.get('dvs', []):
         p.model.add_design_var(d['name'], lower=d['lower'], upper=d['upper'])
     for o in spec.get('objs', []):
